@@ -435,7 +435,7 @@ fn render_tx(sd: &SetupD, c: &ContentD, kt: &KeyTab, tx: &Transaction) -> (STx, 
     let inputs = tx.input.iter().map(|i| {
         let tb: &[u8] = i.previous_output.txid.as_ref();
         SIn {
-            txid: if tb.iter().all(|x| *x == tb[0]) { tb[0] as i64 } else { -1 },
+            txid: txid_id_of(tb),
             vout: i.previous_output.vout,
             sequence: i.sequence.0,
             script_sig: !i.script_sig.is_empty(),
@@ -619,10 +619,17 @@ enum P2Res { Ok(Signature, Vec<Signature>), Err(String), Panic }
 fn wire_htlcs(c: &ContentD) -> Vec<WireHtlc> {
     c.htlcs.iter().map(|h| WireHtlc {
         side: if h.0 { WireHtlc::REMOTE } else { WireHtlc::LOCAL },
-        amount: h.1.saturating_mul(1000),
+        // msat amounts on the wire need not be whole satoshis; BOLT-3 rounds the output value down
+        amount: h.1.saturating_mul(1000).saturating_add(wire_msat_remainder(h)),
         payment_hash: WireSha256(payment_hash_bytes(h.2)),
         ctlv_expiry: h.3,
     }).collect()
+}
+
+/// sub-satoshi part of an HTLC amount on the wire (a deterministic function of the HTLC, both sides):
+/// 0, 1, 500 or 999 msat
+fn wire_msat_remainder(h: &(bool, u64, i64, u32)) -> u64 {
+    [0u64, 1, 500, 999][((h.1 as u64).wrapping_add(h.2 as u64).wrapping_add(h.3 as u64) % 4) as usize]
 }
 
 fn sig_of(b: &[u8; 64]) -> Option<Signature> { Signature::from_compact(b).ok() }
